@@ -72,6 +72,8 @@ def run(tier):
         states += tr["distinct"]
         trans += tr["states"]
         for i, ev in bad:
+            if ev.get("_reason", "").startswith("flow-"):
+                continue        # flow versions along the history are C03's claim (judged there)
             tbad += 1
             # the operations of this session up to the rejected observation
             j = i - 1
